@@ -22,7 +22,7 @@ def main(tier):
     rng = random.Random(chk.seed)
     atoms = pool.atom_thunks()
     comps = pool.composite_thunks(rng, atoms, 60 if tier == "quick" else 400)
-    thunks = atoms + comps
+    thunks = atoms + comps + pool.chain_thunks()
     objs = [(d, th(), th()) for d, th in thunks]  # two structurally equal, distinct objects each
     lifted = []
     for d, a, b in objs:
